@@ -218,23 +218,27 @@ func step(r *mc.Run, kind string, n *mc.Node, a action, id string) any {
 	}
 	// --- transition checks -------------------------------------------------------------
 	// No existing certificate object changes without overwrite permission.
+	clobber := "certificate-object-clobbered"
+	if a.keepGoing {
+		clobber += "/under-keep_going" // a separate class: --keep_going is not overwrite permission, but see known findings
+	}
 	if !a.overwrite {
 		for name, h := range before.Objects {
 			if name == "keyManifest.textproto" {
 				continue
 			}
 			if h2, still := after.Objects[name]; still && h2 != h && a.verb != "wipeout" {
-				viol("certificate-object-clobbered", fmt.Sprintf("object %s changed by %q which has no overwrite permission", name, a.name))
+				viol(clobber, fmt.Sprintf("object %s changed by %q which has no overwrite permission", name, a.name))
 			}
 		}
 		if kind == kmfx.MemMem && a.verb != "wipeout" {
 			for kv, c := range before.Certs {
 				if c2 := after.Certs[kv]; c2 != nil && !c2.Equal(c) {
-					viol("certificate-object-clobbered", fmt.Sprintf("certificate of %s replaced by %q which has no overwrite permission", kv, a.name))
+					viol(clobber, fmt.Sprintf("certificate of %s replaced by %q which has no overwrite permission", kv, a.name))
 				}
 			}
 			if before.Root != nil && after.Root != nil && !before.Root.Equal(after.Root) {
-				viol("certificate-object-clobbered", fmt.Sprintf("root certificate replaced by %q which has no overwrite permission", a.name))
+				viol(clobber, fmt.Sprintf("root certificate replaced by %q which has no overwrite permission", a.name))
 			}
 		}
 	}
